@@ -99,11 +99,12 @@ class Check:
                                  % (self.pid, name, len(ss), fl.fn.name, min_sites))
         return ss
 
-    def require_fact(self, rule, fl, pred, matcher, val, name, min_sites=1, why=""):
-        """every site selected by pred is reached only with atom `matcher` == val established (dominance by guard)"""
+    def require_fact(self, rule, fl, pred, matcher, val, name, min_sites=1, why="", history=False):
+        """every site selected by pred is reached only with atom `matcher` == val established (dominance by guard);
+        history=True: the most recent evaluation counts even if the atom's operands were modified afterwards"""
         ss = self.sites(fl, pred, name, min_sites)
         for s in ss:
-            if s.has(matcher, val):
+            if (s.had(matcher, val) if history else s.has(matcher, val)):
                 self.ok(rule, s.where(), "%s: %s requires %s=%s" % (fl.fn.name, s.desc()[:80], matcher.desc, "T" if val else "F"))
             else:
                 self.violation(rule, "%s|%s|%s|needs:%s=%s" % (rule, fl.fn.name, name, matcher.desc, "T" if val else "F"), s.where(),
